@@ -15,6 +15,8 @@ import (
 	"strings"
 
 	sdk "github.com/cosmos/cosmos-sdk/types"
+	govv1beta1 "github.com/cosmos/cosmos-sdk/x/gov/types/v1beta1"
+	paramproposal "github.com/cosmos/cosmos-sdk/x/params/types/proposal"
 	bankkeeper "github.com/cosmos/cosmos-sdk/x/bank/keeper"
 	banktypes "github.com/cosmos/cosmos-sdk/x/bank/types"
 
@@ -34,7 +36,7 @@ const (
 var kAllowed = [][2]int{{0, 2}, {1, 2}}
 
 type kOp struct {
-	Kind   string `json:"kind"` // deposit | withdraw | swapin | swapout | banksend (plain MsgSend of A1 of D1 to the swap module account)
+	Kind   string `json:"kind"` // deposit | withdraw | swapin | swapout | banksend (plain MsgSend of A1 of D1 to the swap module account) | setfee (parameter-change proposal: SwapFee := mantissa A1)
 	Who    int    `json:"who"`
 	D1     int    `json:"d1"`
 	A1     string `json:"a1"`
@@ -58,7 +60,9 @@ type kWorld struct {
 	ctx   sdk.Context
 	sk    swapkeeper.Keeper
 	addrs []sdk.AccAddress // users then module
-	fee   *big.Int
+	fee   *big.Int         // the swap fee the params subspace holds (re-read before every operation)
+	// fee changes of the history so far: the last accepted proposal changed the stored value
+	feeChanged bool
 }
 
 type kPool struct{ ra, rb, s *big.Int }
@@ -157,12 +161,34 @@ func (w *kWorld) snap() *kSnap {
 	return s
 }
 
+// paramsFee reads the swap fee back through the keeper's GetParams (the params subspace).
+func (w *kWorld) paramsFee() *big.Int { return w.sk.GetParams(w.ctx).SwapFee.BigInt() }
+
+// proposeFee changes the swap fee the way governance does: a parameter-change proposal executed by
+// the handler registered in the gov router (x/params proposal handler -> Subspace.Update, which
+// runs validateSwapFee), NOT Keeper.SetParams.  The keeper instance of the history stays the same.
+func (w *kWorld) proposeFee(ctx sdk.Context, mantissa *big.Int) error {
+	val, err := w.tApp.LegacyAmino().MarshalJSON(decM(mantissa))
+	if err != nil {
+		return err
+	}
+	var content govv1beta1.Content = paramproposal.NewParameterChangeProposal("swap fee", "change the swap fee", []paramproposal.ParamChange{
+		{Subspace: swaptypes.ModuleName, Key: string(swaptypes.KeySwapFee), Value: string(val)},
+	})
+	if err := content.ValidateBasic(); err != nil {
+		return err
+	}
+	return w.tApp.GetGovKeeper().LegacyRouter().GetRoute(content.ProposalRoute())(ctx, content)
+}
+
 func kCoin(d int, a string) sdk.Coin { return sdk.Coin{Denom: kDenoms[d], Amount: sInt(bigS(a))} }
 
 func (w *kWorld) exec(op kOp) (Class, error) {
 	return Atomically(w.ctx, func(ctx sdk.Context) error {
 		k := w.sk
 		switch op.Kind {
+		case "setfee":
+			return w.proposeFee(ctx, bigS(op.A1))
 		case "banksend":
 			// as a transaction would: the bank msg server, which checks BlockedAddr
 			_, err := bankkeeper.NewMsgServerImpl(w.tApp.GetBankKeeper()).Send(sdk.WrapSDKContext(ctx),
@@ -314,6 +340,29 @@ func kMonitor(w *kWorld, op kOp, cls Class, err error, before, after *kSnap, tri
 	}
 	if msg, broken := swapkeeper.AllInvariants(w.sk)(w.ctx); broken {
 		return "keeper-invariants", "keeper-invariant-broken", strings.TrimSpace(msg)
+	}
+	if op.Kind == "setfee" {
+		// a fee change touches nothing but the parameter; it is accepted exactly for fees in [0, 1)
+		if what := kSameState(before, after); what != "" {
+			return "fee-change-touches-only-the-fee", "fee-change-changed-state", what
+		}
+		f := bigS(op.A1)
+		valid := f.Sign() >= 0 && f.Cmp(prec18) < 0
+		now := w.paramsFee()
+		switch {
+		case cls == ClassOk && !valid:
+			return "fee-in-range", "invalid-fee-accepted", f.String()
+		case cls == ClassOk && now.Cmp(f) != 0:
+			return "fee-change-takes-effect", "accepted-fee-not-stored", fmt.Sprintf("proposed %s, params hold %s", f, now)
+		case cls != ClassOk && now.Cmp(w.fee) != 0:
+			return "failed-op-no-change", "refused-fee-change-changed-fee", fmt.Sprintf("%s -> %s", w.fee, now)
+		case cls != ClassOk && valid:
+			return "fee-change-takes-effect", "valid-fee-refused", fmt.Sprintf("%s: %v", f, err)
+		}
+		return "", "", ""
+	}
+	if now := w.paramsFee(); now.Cmp(w.fee) != 0 {
+		return "only-governance-changes-the-fee", "fee-changed-by-swap-operation", fmt.Sprintf("%s -> %s", w.fee, now)
 	}
 	wasTrip := *trip
 	trip.active = false
@@ -467,7 +516,25 @@ func kMonitor(w *kWorld, op kOp, cls Class, err error, before, after *kSnap, tri
 		}
 		minFee := ceilDiv(mul(in, w.fee), prec18)
 		if mul(sub(res(q, din), minFee), res(q, dout)).Cmp(mul(p.ra, p.rb)) < 0 {
-			return "fee-kept", "fee-not-kept", fmt.Sprintf("in %s fee rate %s out %s reserves %s,%s", in, w.fee, out, res(p, din), res(p, dout))
+			return "fee-kept", "fee-not-kept", fmt.Sprintf("in %s fee rate %s (the fee the parameters hold when the swap executes) out %s reserves %s,%s", in, w.fee, out, res(p, din), res(p, dout))
+		}
+		// the swap is priced exactly as the pool arithmetic prices it under the CURRENT fee: an
+		// exact-input swap pays out no more, an exact-output swap charges no less
+		{
+			bk := map[bool]string{true: "swapAB", false: "swapBA"}[din == x]
+			arg := in
+			if op.Kind == "swapout" {
+				bk = map[bool]string{true: "forB", false: "forA"}[dout == y]
+				arg = out
+			}
+			if want := kPredict(p, bk, arg, w.fee); want != nil {
+				if op.Kind == "swapin" && out.Cmp(want[0]) > 0 {
+					return "fee-kept", "reported-fee-below-rate", fmt.Sprintf("exact input %s paid out %s; under the configured fee %s at most %s may leave the pool", in, out, w.fee, want[0])
+				}
+				if op.Kind == "swapout" && in.Cmp(want[0]) < 0 {
+					return "fee-kept", "reported-fee-below-rate", fmt.Sprintf("exact output %s charged %s; under the configured fee %s at least %s is due", out, in, w.fee, want[0])
+				}
+			}
 		}
 		if op.Kind == "swapin" {
 			if in.Cmp(bigS(op.A1)) != 0 {
@@ -554,7 +621,15 @@ func kCoqHeader(g kGenesis, s *kSnap) string {
 	for i, p := range kAllowed {
 		al[i] = fmt.Sprintf("(%s, %s)", Nat(p[0]), Nat(p[1]))
 	}
-	return fmt.Sprintf("HK (mkEnv %s %s %s %s)\n  (mk_state %s)", Nat(kNUsers), Nat(kNDen), List(al), Z(bigS(g.Fee)), List(rows))
+	return fmt.Sprintf("mkVH (mkEnv %s %s %s %s)\n  (mk_state %s)", Nat(kNUsers), Nat(kNDen), List(al), Z(bigS(g.Fee)), List(rows))
+}
+
+// a step of a [vhistory] (Model/SwapGov.v): the operation, the observation, the fee read back
+func kCoqKeeperStep(op kOp, obs string, fee *big.Int) string {
+	if op.Kind == "setfee" {
+		return fmt.Sprintf("(VSetFee %s,\n    %s, %s)", Z(bigS(op.A1)), obs, Z(fee))
+	}
+	return fmt.Sprintf("(VKeeper (%s),\n    %s, %s)", kCoqOp(op), obs, Z(fee))
 }
 
 // ------------------------------------------------------------ generation
@@ -968,6 +1043,20 @@ func kSplits(w *kWorld, op kOp, cls Class, err error, before, after *kSnap, cnt 
 			cnt.Inc("split:keeper:" + k)
 		}
 	}
+	if op.Kind == "setfee" {
+		if cls == ClassOk {
+			mark("setfee:accepted")
+			if w.feeChanged {
+				mark("setfee:accepted-new-value")
+			}
+		} else {
+			mark("setfee:refused-out-of-range")
+		}
+		return out
+	}
+	if cls == ClassOk && (op.Kind == "swapin" || op.Kind == "swapout") && w.feeChanged {
+		mark("swap-after-fee-change")
+	}
 	x, y := sortPair(op.D1, op.D2)
 	p, q := before.pool(x, y), after.pool(x, y)
 	switch cls {
@@ -1063,6 +1152,24 @@ var kAllSplits = []string{
 	"withdraw:refused:slippage", "withdraw:refused:insufficient-liquidity",
 	"swapin:refused:slippage", "swapin:refused:insufficient-liquidity", "swapin:refused:insufficient-funds",
 	"swapout:refused:slippage", "swapout:refused:insufficient-liquidity", "swapout:refused:insufficient-funds",
+	"setfee:accepted", "setfee:accepted-new-value", "setfee:refused-out-of-range", "swap-after-fee-change",
+}
+
+// kGenFeeChange: a parameter-change proposal for the swap fee: mostly a valid fee different from
+// the current one (raised and lowered), sometimes the same, sometimes out of range
+func kGenFeeChange(r *Rng, cur *big.Int) kOp {
+	var f *big.Int
+	switch r.Pick(50, 20, 8, 22) {
+	case 0:
+		f = bigS(kFees[r.Intn(len(kFees))])
+	case 1:
+		f = new(big.Int).Mod(r.BigBits(64), prec18)
+	case 2:
+		f = new(big.Int).Set(cur)
+	default:
+		f = []*big.Int{bi(-1), new(big.Int).Set(prec18), add(prec18, bi(5)), mul(prec18, bi(3)), bi(-3000000000000000)}[r.Intn(5)]
+	}
+	return kOp{Kind: "setfee", A1: f.String(), A2: "0"}
 }
 
 // ------------------------------------------------------------ history runner
@@ -1106,11 +1213,17 @@ func kRunMode(mode string, seed uint64, idx, n int, gen *kGenesis, ops []kOp, cn
 		if ops != nil {
 			op = ops[i]
 		} else {
-			op = kGenOp(r, w, prev, trip)
+			// governance changes the fee in the middle of most histories (after the first swaps)
+			if i >= 3 && r.Chance(1, 12) {
+				op = kGenFeeChange(r, w.paramsFee())
+			} else {
+				op = kGenOp(r, w, prev, trip)
+			}
 			if tx {
 				txTimes(r, &now, &op)
 			}
 		}
+		w.fee = w.paramsFee()
 		var cls Class
 		var err error
 		if tx {
@@ -1123,6 +1236,10 @@ func kRunMode(mode string, seed uint64, idx, n int, gen *kGenesis, ops []kOp, cn
 			fmt.Fprintf(os.Stderr, "DBG %s %+v pool=%v bal=%v err=%v\n", kErrKind(err), op, prev.pool(x, y), prev.bal[op.Who], err)
 		}
 		after := w.snap()
+		feeAfter := w.paramsFee()
+		if op.Kind == "setfee" && cls == ClassOk {
+			w.feeChanged = feeAfter.Cmp(w.fee) != 0
+		}
 		h.Ops = append(h.Ops, op)
 		if cnt != nil {
 			pre := "op:"
@@ -1139,7 +1256,7 @@ func kRunMode(mode string, seed uint64, idx, n int, gen *kGenesis, ops []kOp, cn
 		}
 		var pred, sig, detail string
 		if tx {
-			steps = append(steps, kCoqMsgStep(op, kCoqObs(cls, prev, after)))
+			steps = append(steps, kCoqMsgStep(op, kCoqObs(cls, prev, after), feeAfter))
 			pred, sig, detail = kMonitorTx(w, op, cls, err, prev, after, trip, func(k string) {
 				splits[k] = true
 				if cnt != nil {
@@ -1147,16 +1264,13 @@ func kRunMode(mode string, seed uint64, idx, n int, gen *kGenesis, ops []kOp, cn
 				}
 			})
 		} else {
-			steps = append(steps, fmt.Sprintf("(%s,\n    %s)", kCoqOp(op), kCoqObs(cls, prev, after)))
+			steps = append(steps, kCoqKeeperStep(op, kCoqObs(cls, prev, after), feeAfter))
 			pred, sig, detail = kMonitor(w, op, cls, err, prev, after, trip)
 		}
 		if pred != "" && fail == nil {
 			fail = &Failure{History: idx, Step: i, Predicate: pred, Signature: sig, Detail: detail}
 		}
 		prev = after
-	}
-	if tx { // an [mhistory] term instead of the [HK] constructor
-		header = "mkMH" + strings.TrimPrefix(header, "HK")
 	}
 	coq = fmt.Sprintf("%s\n  %s", header, List(steps))
 	return
